@@ -6,8 +6,8 @@ use crate::fmts::F;
 use crate::model::*;
 use crate::universe as u;
 
-pub const LITERALS: [&str; 19] =
-    ["a", "0", "1", "0.5", "2", "-", "-1", "+", " ", "é", "😀", "\u{301}", "\\", "{", "}", "=", "\t", "\n", "\u{3000}"];
+pub const LITERALS: [&str; 22] =
+    ["a", "0", "1", "0.5", "2", "-", "-1", "+", " ", "é", "😀", "\u{301}", "\\", "{", "}", "=", "\t", "\n", "\u{3000}", "\u{feff}", "\u{a0}", "\u{2028}"];
 
 pub const NUMBER_EDGES: [&str; 58] = [
     "0", "1", "0.0", "1.0", "1.0000000001", "1.000000001", "1.0000000000000002", "1.00000000000000000001", "1.0000001", "1.1", "2",
